@@ -19,6 +19,9 @@ POOL = {
     # U+FFFD is a character like any other; surrogates and out-of-range values have no character literal
     "replacement": G % "replacement" + 'RC = /[\\xFFFC-\\xFFFD]+/;\nTXT = /"[a-z\\xFFFD]*"/;\nstart = {RC | TXT};\n',
     "surrogates": G % "surrogates" + 'SG = /[\\xD7FE-\\xD802]+/;\nNG = /a\\xFFFFFFFF/;\nID = /[a-z]+/;\nstart = {SG | NG | ID};\n',
+    # terminals owning exactly 16 / 32 / 17 accepting states (line-wrapped state lists)
+    "sixteen": G % "sixteen" + 'AS = /a{1,16}/;\nCS = /c{1,17}/;\nstart = {AS | CS};\n',
+    "thirtytwo": G % "thirtytwo" + 'BS = /b{1,32}/;\nstart = {BS | "x"};\n',
     "nonascii": G % "nonascii" + 'EE = /\\x00E9+/;\nEUR = /\\x20AC/;\nID = /[a-z]+/;\nstart = {EE | EUR | ID};\n',
     "control": G % "control" + 'CTL = /[\\x01-\\x08]/;\nBEL = /\\x07\\x07/;\nID = /[a-z]+/;\nstart = {CTL | BEL | ID};\n',
     "nostate": G % "nostate" + 'IFP = /i[f]/;\nID = /[a-z]+x/;\nstart = {"if" | IFP | ID};\n',
